@@ -311,12 +311,16 @@ def ptycho_stream(ctx, drv=None):
         path = os.path.join(base, "p.zip" if store == "zip" else "pdir")
         # every form the `skip: str | type | Sequence[str | type]` argument accepts
         form = rng.choice(["list", "tuple", "bare"])
-        if j < 4:
+        if j < 5:
             # fixed head of the history (whatever the seed): list + default mode (re-used for a raw save right after),
-            # tuple + raw data, bare entry, list + raw data (re-used for a default save right after)
-            form, raw = [("list", False), ("tuple", True), ("bare", False), ("list", True)][j]
+            # tuple + raw data, ONE BARE NAME, list + raw data (re-used for a default save right after), ONE BARE TYPE
+            form, raw = [("list", False), ("tuple", True), ("bare", False), ("list", True), ("bare", False)][j]
+            if j == 2:
+                tname = None
+            if j == 4:
+                tname = tname or "ndarray"
         if form == "bare":
-            if tname and rng.chance(0.5):
+            if tname and (j == 4 or rng.chance(0.5)):
                 names = []
             else:
                 names, tname = names[:1], None
@@ -362,7 +366,7 @@ def ptycho_stream(ctx, drv=None):
                 ctx.disagree("ptycho-recorded-lists", case, mm, rr, note="skip lists recorded in the file vs normSkip (ptychoSkipArg …)")
         if repr(skip_arg) != arg_before:
             ctx.disagree("skip-argument-mutated", case, arg_before, repr(skip_arg), note="Ptychography.save changed the caller's skip argument in place")
-        if form == "list" and (j % 2 == 0 or j < 4):
+        if form == "list" and (j % 2 == 0 or j < 5):
             # the caller re-uses ITS list object for the next save, with the other save_raw_data: the second file
             # must follow the list as the caller wrote it
             ctx.count()
